@@ -26,15 +26,29 @@ r1 == Bin("<", a2, a3)  r2 == Bin(">", a2, a3)  r3 == Bin("==", a1, a1)
 LogTrees == {Bin(p, Bin(c, r1, r2), r3) : p \in LOps, c \in LOps} \cup {Bin(p, r1, Bin(c, r2, r3)) : p \in LOps, c \in LOps}
             \cup {Un("not", Bin(c, r1, r2)) : c \in LOps} \cup {Bin(c, Un("not", r1), r2) : c \in LOps} \cup {Bin(c, r1, Un("not", r2)) : c \in LOps}
             \cup {Un("not", Un("not", r1)), Bin("==", Bin("<", a2, a3), B(TRUE))}
+\* thorough tier: three operators deep, every shape (left/right at both levels), and the three categories mixed
+Thorough == Env("VERIF_TIER", "quick") = "thorough"
+\* (small leaves keep every intermediate result inside TLC's integers)
+b1 == I(3)  b2 == I(2)  b3 == I(1)
+q1 == Bin("<", b2, b3)  q2 == Bin(">", b2, b3)
+Deep3 == {Bin(p, Bin(c, Bin(g, b1, b2), b3), b2) : p \in AOps, c \in AOps, g \in AOps}
+         \cup {Bin(p, b1, Bin(c, b2, Bin(g, b3, b2))) : p \in AOps, c \in AOps, g \in AOps}
+         \cup {Bin(p, Bin(c, b1, Bin(g, b2, b3)), b2) : p \in AOps, c \in AOps, g \in AOps}
+         \cup {Bin(p, b1, Bin(c, Bin(g, b2, b3), b2)) : p \in AOps, c \in AOps, g \in AOps}
+         \cup {Bin(p, Bin(c, b1, b2), Bin(g, b3, b2)) : p \in AOps, c \in AOps, g \in AOps}
+         \cup {Un("-", Bin(p, Un("-", Bin(c, b1, b2)), b3)) : p \in AOps, c \in AOps}
+Mixed3 == {Bin(l, Bin(r, Bin(c, b1, b2), b3), Bin(rr, b2, Bin(c, b3, b1))) : l \in LOps, r \in ROps, rr \in {"<", "=="}, c \in {"+", "*", "**", "-"}}
+          \cup {Un("not", Bin(l, Bin(r, b1, Bin(c, b2, b3)), q1)) : l \in LOps, r \in ROps, c \in AOps}
+          \cup {Bin(l, Un("not", Bin(r, Un("-", b1), b2)), Bin(l2, q1, q2)) : l \in LOps, l2 \in LOps, r \in ROps}
 \* program text with minimal parentheses; the AST is what it must mean
 ExprProg(e) == [ast |-> <<Let("X", e), PrintS(<<V("X")>>)>>, text |-> "X = " \o RMin(e) \o ";\nprint X;"]
 Pinned(e) == LET r == Eval(e, State0) IN ~(Failed(r.S) /\ r.S.err.name = "wide")       \* e.g. not an integer ** negative
-JudgedExpr == {ExprProg(e) : e \in {t \in ArithTrees \cup RelTrees \cup LogTrees : Pinned(t)}}
+JudgedExpr == {ExprProg(e) : e \in {t \in ArithTrees \cup RelTrees \cup LogTrees \cup (IF Thorough THEN Deep3 \cup Mixed3 ELSE {}) : Pinned(t)}}
 
 \* statement-level programs (rendered by Bloc!Render)
 P2(s) == PrintS(<<Str(s)>>)
 StmtProgs ==
-  { <<Func("FDIV", <<"A">>, <<Return(Bin("/", I(1), V("A")))>>), Let("T", Call("tab", <<I(2), I(7)>>)), Let("N", I(0))>> \o x.defs \o x.body \o <<P2("after")>> : x \in UNION {ShapesOf(d, Leaves) : d \in 0..1} }
+  { <<Func("FDIV", <<"A">>, <<Return(Bin("/", I(1), V("A")))>>), Let("T", Call("tab", <<I(2), I(7)>>)), Let("N", I(0))>> \o x.defs \o x.body \o <<P2("after")>> : x \in UNION {ShapesOf(d, Leaves) : d \in 0..(IF Thorough THEN 2 ELSE 1)} }
   \cup { << Func("FA", <<"A", "B">>, <<If(Bin(">", V("A"), V("B")), <<Return(V("A"))>>, <<>>), Return(V("B"))>>),
             Func("FA", <<"A">>, <<Return(UCall("FA", <<V("A"), I(0)>>))>>),
             PrintS(<<UCall("FA", <<I(3), I(5)>>), Str(" "), UCall("FA", <<I(-1)>>)>>),
